@@ -18,13 +18,15 @@
 
 namespace c19 {
 
-// separable filters: element-wise relative to prod_d ||k_d||_1 * ||x||_inf (DESIGN 1e-5; observed ~4e-7)
+// separable filters: element-wise relative to prod_d ||k_d||_1 * ||x||_inf   (DESIGN 1e-5; observed 5.7e-7)
 constexpr double TOL_SEP = 1e-5;
-// Gaussian kernel: shape relative 1e-5, sum 1e-5 (DESIGN)
+// Gaussian kernel: shape (relative, see check_gauss), sum, rank-1 defect   (DESIGN 1e-5; observed 2.9e-7 / 1.3e-7 / 1.3e-7)
 constexpr double TOL_GAUSS = 1e-5;
-// Metz kernels are built with float FFTs of up to 2^19 points and cut at 1e-4 of the peak (SeparableMetzArrayFilter.cxx);
-// the kernel sum (DC gain 1 by the documented formula) is therefore only accurate to ~1e-3 (observed max, see props.d)
-constexpr double TOL_METZ_SUM = 2e-2;
+// Metz kernels are built with float FFTs of up to 2^19 points and cut where they fall below 1e-4 of the peak
+// (SeparableMetzArrayFilter.cxx): kernel sum vs 1 observed 5.3e-4, constant region vs c observed 1.7e-4,
+// kernel elements vs the documented formula observed 2.9e-4 of the peak
+constexpr double TOL_METZ_SUM = 1e-2;
+constexpr double TOL_METZ_FORMULA = 1e-2;
 
 static const int PERMS[6][3] = { { 0, 1, 2 }, { 0, 2, 1 }, { 1, 0, 2 }, { 1, 2, 0 }, { 2, 0, 1 }, { 2, 1, 0 } };
 
